@@ -30,6 +30,17 @@ created - so it still satisfies the ramp oracle it passed then - and mutable arg
 tensors and lists, kernels, target grids) must be unchanged.  Results that are views of their operand (narrow,
 center_crop, no-op forms, sample() on the own grid returning self) are fine; only a change of values is an alarm.
 
+Flow fields: units move with the grid.  The numbers of a flow field mean world vectors only together with the vector axes
+(WORLD, GRID = voxel units, CUBE / CUBE_CORNERS = normalized to the grid extent / corner-to-corner span) AND the grid they are
+attached to.  "Data and grid move in lock-step" therefore includes the units: a flow field whose WORLD vectors are a linear
+function of world position must, after any grid-changing operation, hold the SAME world vectors at the returned grid's world
+positions, expressed w.r.t. the same axes of the RETURNED grid (float64 world -> axes matrix of the returned grid's model applied
+to the ramp; FlowFields._regrid / sample docstrings: "vectors w.r.t. these grids").  All four axes are generated on grids of
+either align_corners flag (the default axes of a grid - CUBE for False, CUBE_CORNERS for True - are only two of the eight
+combinations), given to the constructor, left to its default, or obtained from another representation by flow.axes(...); the
+program may convert the axes again at any point (operation 'axes': same grid, same world vectors, other units).  A failure whose
+numbers are right in the units of the OPERAND's grid is reported as flow_vectors_in_units_of_operand_grid:<operation>.
+
 Hidden grid state.  Grid keeps a fractional float size after downsample()/pyramid() of odd sizes and after resample()
 (size/2, extent/spacing) while it has ceil(size) points.  Such grids are generated directly: as input grids and as
 sample() targets derived by Grid.downsample()/Grid.resample() (the ramp is then defined on the attributes deepali
@@ -52,18 +63,28 @@ from vlib.findings import Known
 
 PROPERTY = "C04"
 MANIFEST = {
-    "text": "Generated Image / ImageBatch (N = 1..3, distinct per-image grids) / FlowField / FlowFields (WORLD axes) objects on "
-            "oriented anisotropic grids (D in {2,3}, both align_corners, float32/float64; also grids with a fractional internal "
-            "size derived by Grid.downsample/resample, and batches whose images share one Grid object) whose intensity is a "
+    "text": "Generated Image / ImageBatch (N = 1..3, distinct per-image grids) / FlowField / FlowFields objects (vectors w.r.t. "
+            "WORLD, GRID, CUBE or CUBE_CORNERS axes on grids of either align_corners flag, axes given to the constructor, left to "
+            "its default or obtained by flow.axes()) on "
+            "oriented anisotropic grids (D in {2,3}, both align_corners, also different flags within one batch, float32/float64; "
+            "also grids with a fractional internal "
+            "size derived by Grid.downsample/resample, and batches whose images share one Grid object) whose intensity / world "
+            "vector is a "
             "per-image linear function of world position are pushed through programs of 1-4 operations (resize, resample, "
-            "downsample, upsample, pyramid, crop, pad, center_crop, center_pad, region_of_interest, narrow, avg_pool, conv, "
-            "sample(grid), batch indexing; depth <= 3) with arguments of all documented forms (int, varargs, list, tuple, "
-            "tensor; scalar fill / padding constants of both signs). Each operation is applied to the latest or to an earlier "
+            "downsample, upsample (also their negative-levels forms), pyramid (positive, negative and default level indices), "
+            "crop, pad, center_crop, center_pad, region_of_interest, narrow, avg_pool, conv, "
+            "sample(grid), batch indexing, flow.axes(); depth <= 3; also the same operation two or three times in sequence) with "
+            "arguments of all documented forms (int, varargs, list, tuple, "
+            "tensor; scalar fill / padding constants of both signs; explicit align_corners equal to or different from the grid "
+            "flag). Each operation is applied to the latest or to an earlier "
             "live object (fan-out), sample() may target the grids of another live object. After every step the result must be "
             "of the same type, its grids must have the shape of its data, every sample computed from inside the original field "
             "of view must equal the same linear function of the RETURNED grid's world positions (float64 model, bound "
-            "64*eps32*condition), index-only operations must be bit-exact copies at the documented offset, per image, and "
-            "every live object (operand, input, earlier results) and every mutable argument object must be bit-exactly "
+            "64*eps32*condition; for flow fields: the same world vectors expressed w.r.t. the axes of the RETURNED grid), index-only "
+            "operations must be bit-exact copies at the documented offset (flow fields with non-world axes: re-expressed vectors, "
+            "ramp bound), per image, and "
+            "every live object (operand, input, earlier results; data, grids and vector axes label) and every mutable argument "
+            "object must be bit-exactly "
             "unchanged. A second facet checks the documented vector conversion of FlowFields.sample for non-world axes, "
             "also from / onto grids with a fractional internal size. Exploration, not proof.",
     "note": "Trusted: float64 grid model of vlib/ref.py (index->world), the footprint model of each operation in props/c04.py "
@@ -94,10 +115,20 @@ ASSUMPTIONS = [
     "footprint model (see module docstring for the list of operations and reasons)",
     "conv kernels are odd-length symmetric with dyadic weights of unit sum (a sampling grid cannot represent the half-sample "
     "shift of an even kernel); upsample is used without transposed convolution (sigma=None)",
-    "batches use one align_corners flag for all per-image grids; sample() is called with one target grid per image "
-    "(a single grid for N > 1 is finding F21 of C05/C10)",
-    "FlowFields are given in WORLD axes in the chain facet (other axes are not converted by resize/crop/... by design); the "
-    "conversion documented for FlowFields.sample is checked separately for grid/cube/cube_corners axes",
+    "batches: the per-image grids have one common flag or (1/2 of the batches with N > 1) individually drawn flags; the default "
+    "flag of an operation is then the flag of the FIRST grid (ImageBatch.align_corners() docstring) for data and all grids; "
+    "sample() is called with one target grid per image (a single grid for N > 1 is finding F21 of C05/C10)",
+    "flow fields: expected numbers = (world -> axes of the RETURNED grid) applied to the world ramp, for every grid-changing "
+    "operation (FlowFields._regrid: 'vectors w.r.t. these grids', sample() docstring); index-only operations re-express "
+    "non-world vectors too, so for those flows the bit-exact copy check is replaced by the ramp check (GRID axes: factor 1 "
+    "within the bound); the padded / extrapolated junk level used for border allowances is scaled by the largest vector gain",
+    "NOT judged: narrow() along a spatial dimension of a flow field with CUBE / CUBE_CORNERS axes (not generated). narrow is a "
+    "tensor-named operation that returns the operand's values (pinned to plain torch in C19), so on the narrowed grid's cube "
+    "the unchanged numbers are other world vectors; whether it should rescale is a design question, not asserted either way. "
+    "GRID / WORLD flows are narrowed and must be bit-exact copies",
+    "negative levels: downsample(-L, dims, align_corners) is checked as upsample(L) and upsample(-L, dims, align_corners) as "
+    "downsample(L) with the default pre-smoothing and no min_size (docstrings: 'halved (>0) or doubled (<0)'); levels = 0 is "
+    "not generated; avg_pool is generated without stride / padding (Grid.pool raises NotImplementedError for them)",
 ]
 
 K = 64.0
@@ -298,6 +329,11 @@ def verify_pool(pool, src_idx: int, opname: str, note: str):
             d = float((cur.double() - t.double()).abs().max()) if cur.shape == t.shape else float("nan")
             raise Violation(f"{who}_data_modified:{opname}", f"{note}: the voxel data of {st_.name} (pool index {k}) changed in place "
                                                              f"(max |delta| = {d:.6g}); it no longer matches its own grid")
+        cur_axes = st_.obj.axes() if st_.is_flow else None
+        cur_axes = getattr(cur_axes, "value", cur_axes)
+        if st_.is_flow and cur_axes != st_.axes:
+            raise Violation(f"{who}_axes_modified:{opname}", f"{note}: the vector axes of {st_.name} (pool index {k}) changed in place "
+                                                             f"from {st_.axes} to {cur_axes}")
         grids = st_.grids()
         if len(grids) != len(gsnaps) or not all(grid_unchanged(g, sn) for g, sn in zip(grids, gsnaps)):
             raise Violation(f"{who}_grid_modified:{opname}", f"{note}: a sampling grid of {st_.name} (pool index {k}) changed in place: "
@@ -335,6 +371,11 @@ def build_input(case):
     dt = tdtype(case["dtype"])
     C = D if kind.startswith("flow") else case["C"]
     axes = case.get("axes", "world")
+    # how the flow field got its vector axes: 'ctor' = explicit constructor argument, 'default' = constructor without axes
+    # (the generator then sets axes = Axes.from_grid of the first grid), 'convert' = built w.r.t. case['axes_from'] and
+    # converted by flow.axes(...) (an object returned by an earlier operation, not a fresh constructor)
+    via = case.get("axes_via", "ctor") if kind.startswith("flow") else "ctor"
+    build_axes = case.get("axes_from", "world") if via == "convert" else axes
     items, tensors, dgrids = [], [], []
     derive = case.get("derive")
     share = bool(case.get("share_grid")) and kind in ("batch", "flowfields")
@@ -353,7 +394,8 @@ def build_input(case):
         item = Item(i, A, p, b, m)
         if axes != "world":
             item.lin = axes
-            L = m.matrix("world", axes)[:, :D]
+        if build_axes != "world":
+            L = m.matrix("world", build_axes)[:, :D]
             vals = np.tensordot(L, vals, axes=(1, 0))
         items.append(item)
         tensors.append(torch.tensor(vals, dtype=dt))
@@ -364,9 +406,11 @@ def build_input(case):
     elif kind == "batch":
         obj = ImageBatch(torch.stack(tensors), garg)
     elif kind == "flowfield":
-        obj = FlowField(tensors[0], dgrids[0], Axes(axes))
+        obj = FlowField(tensors[0], dgrids[0]) if via == "default" else FlowField(tensors[0], dgrids[0], Axes(build_axes))
     else:
-        obj = FlowFields(torch.stack(tensors), garg, Axes(axes))
+        obj = FlowFields(torch.stack(tensors), garg) if via == "default" else FlowFields(torch.stack(tensors), garg, Axes(build_axes))
+    if via == "convert":
+        obj = obj.axes(Axes(axes))
     st_ = State(kind, obj, items, dt, axes)
     st_.derived = derive
     for it, dg in zip(items, dgrids):  # from here on the model follows the grid deepali reports
@@ -384,6 +428,13 @@ def world_cond(m: ref.GridModel) -> float:
 
 def index_cond(m: ref.GridModel) -> float:
     return world_cond(m) / float(m.s.min()) + float(m.n.max())
+
+
+def vector_gain(old: ref.GridModel, old_axes, new: ref.GridModel, new_axes) -> float:
+    """Largest factor by which a vector component grows when re-expressed from old_axes of `old` to new_axes of `new`."""
+    Lo = np.eye(old.D) if old_axes is None else old.matrix("world", old_axes)[:, : old.D]
+    Ln = np.eye(new.D) if new_axes is None else new.matrix("world", new_axes)[:, : new.D]
+    return float(np.abs(Ln @ np.linalg.inv(Lo)).sum(axis=1).max())
 
 
 # ---------------------------------------------------------------------------------------
@@ -598,7 +649,13 @@ def gauss_radius(sigma, levels: int) -> int:
     return int(math.floor(3.0 * eff + 1e-6))
 
 
-def r_downsample(state: State, op, avoid):
+def r_downsample(state: State, op, avoid, as_negative_upsample=False):
+    """downsample(levels > 0, ...).  `as_negative_upsample`: the documented equivalent upsample(-levels, dims, align_corners)
+    ('levels: number of times the image size is doubled (>0) or halved (<0)'), i.e. default pre-smoothing, no min_size."""
+    if op.get("negative") and not as_negative_upsample:
+        return r_upsample(state, op, avoid, as_negative_downsample=True)
+    if as_negative_upsample:
+        op = dict(op, sigma=None, min_size=0)
     D, n = state.D, state.size()
     arg_dims, axes = dims_arg(op, D)
     ms = int(op.get("min_size", 0))
@@ -635,10 +692,16 @@ def r_downsample(state: State, op, avoid):
         pre = [rad if (k in axes and m[k] != n[k]) else 0 for k in range(D)]
         return _interp_rel(n, m, acs, max(n), pre=pre)
 
+    if as_negative_upsample:
+        kw.pop("sigma")
+        return Call("upsample", lambda o: o.upsample(-levels, **kw), rel, note=f"upsample({-levels}, {kw})", kindtag=tag)
     return Call("downsample", lambda o: o.downsample(levels, **kw), rel, note=f"downsample({levels}, {kw})", kindtag=tag)
 
 
-def r_upsample(state: State, op, avoid):
+def r_upsample(state: State, op, avoid, as_negative_downsample=False):
+    """upsample(levels > 0, ...).  `as_negative_downsample`: the documented equivalent downsample(-levels, dims, align_corners)."""
+    if op.get("negative") and not as_negative_downsample:
+        return r_downsample(state, op, avoid, as_negative_upsample=True)
     D, n = state.D, state.size()
     arg_dims, axes = dims_arg(op, D)
     levels = int(op.get("levels", 1))
@@ -660,6 +723,9 @@ def r_upsample(state: State, op, avoid):
         kw["align_corners"] = bool(op["ac"])
     acs = ac_of(state, op)
     m = [n[k] * sc if k in axes else n[k] for k in range(D)]
+    if as_negative_downsample:
+        return Call("downsample", lambda o: o.downsample(-levels, **kw), lambda s, ms_: _interp_rel(n, m, acs, max(m)),
+                    note=f"downsample({-levels}, {kw})", shape=None if tag else m, kindtag=tag)
     return Call("upsample", lambda o: o.upsample(levels, **kw), lambda s, ms_: _interp_rel(n, m, acs, max(m)),
                 note=f"upsample({levels}, {kw})", shape=None if tag else m, kindtag=tag)
 
@@ -813,11 +879,17 @@ def r_narrow(state: State, op, avoid):
     D, n = state.D, state.size()
     N = len(state.items)
     C = int(state.data().shape[1])
-    choices = [("s", k) for k in range(D)]
+    # narrow() is a tensor-named operation: it returns the operand's values unchanged (pinned to plain torch in C19). For
+    # vectors normalized to the grid cube (CUBE / CUBE_CORNERS axes) a spatially narrowed grid has another cube, so the
+    # unchanged numbers are not "the same world vectors w.r.t. the returned grid"; this is not judged (see ASSUMPTIONS)
+    normalized = state.is_flow and state.axes in ("cube", "cube_corners")
+    choices = [] if normalized else [("s", k) for k in range(D)]
     if state.is_batch and N >= 2:
         choices.append(("b", 0))
     if not state.is_flow and C >= 2:
         choices.append(("c", 0))
+    if not choices:
+        return Call("narrow", noop=True, note="routed:normalized_vector_axes")
     what, k = choices[pick(op["d"], 0, len(choices) - 1)]
     lead = 2 if state.is_batch else 1
     if what == "s":
@@ -1051,11 +1123,27 @@ def r_index(state: State, op, avoid):
     return c
 
 
+def r_axes(state: State, op, avoid):
+    """flow.axes(new): same grid, same world vectors, expressed w.r.t. other axes (documented: 'Rescale and reorient vectors')."""
+    from deepali.core import Axes
+
+    if not state.is_flow:
+        return Call("axes", noop=True, note="not a flow field")
+    new = op["to"]
+    D = state.D
+    n = state.size()
+    arg = new if op.get("as_str") else Axes(new)
+    rel = Rel("sep", axes=[window_axis(n[k], 0) for k in range(D)], exact=[0] * D)
+    c = Call("axes", lambda o: o.axes(arg), lambda s, ms: rel, note=f"axes({arg!r}) from {state.axes}", shape=n)
+    c.new_axes = new
+    return c
+
+
 RESOLVERS = {
     "resize": r_resize, "resample": r_resample, "downsample": r_downsample, "upsample": r_upsample,
     "crop": r_crop_pad, "pad": r_crop_pad, "center_crop": r_center_crop, "center_pad": r_center_pad,
     "region_of_interest": r_roi, "narrow": r_narrow, "avg_pool": r_avg_pool, "conv": r_conv, "sample": r_sample,
-    "getitem": r_index,
+    "getitem": r_index, "axes": r_axes,
 }
 INDEX_ONLY = {"crop", "pad", "center_crop", "center_pad", "region_of_interest", "narrow", "getitem"}
 
@@ -1109,8 +1197,12 @@ def structure(state: State, out, call: Call, n_items: int):
     return t, grids
 
 
-def check_values(state: State, items, t: torch.Tensor, name: str, note: str, stats):
-    """Ramp check of every image against the world positions of its own returned grid."""
+def check_values(state: State, items, t: torch.Tensor, name: str, note: str, stats, operand_models=None):
+    """Ramp check of every image against the world positions of its own returned grid.
+
+    Flow fields w.r.t. grid / cube axes: the expected numbers are the world vectors expressed in the axes of the RETURNED grid
+    (world meaning of the vectors is what must be preserved).  `operand_models` (models of the operand's grids) only serves to
+    name the failure: numbers that are right in the units of the operand's grid get their own violation kind."""
     worst = 0.0
     arr = t.detach().double().numpy()
     for i, it in enumerate(items):
@@ -1137,6 +1229,14 @@ def check_values(state: State, items, t: torch.Tensor, name: str, note: str, sta
         stats["checked"] += int(it.ok.sum())
         if it.tight.any():
             sel = np.broadcast_to(it.tight, act.shape)
+            if it.lin is not None and operand_models is not None and float(np.abs(act[sel] - exp[sel]).max()) > bound:
+                Lo = operand_models[i].matrix("world", it.lin)[:, : m.D]
+                alt = np.tensordot(Lo, ramp_values(it.A, it.p, it.b, m.world_points()), axes=(1, 0))
+                if state.chan is None and float(np.abs(act[sel] - alt[sel]).max()) <= bound:
+                    raise Violation(f"flow_vectors_in_units_of_operand_grid:{name.split(':')[0]}",
+                                    f"{note}: image {i} (original {it.ident}): the {it.lin} vectors are the right world vectors in the units of "
+                                    f"the OPERAND's grid, not of the returned grid (size {operand_models[i].n.tolist()} -> {m.n.tolist()}, "
+                                    f"max |delta| = {float(np.abs(act[sel] - exp[sel]).max()):.6g} > bound {bound:.3g})")
             worst = max(worst, check_close(act[sel], exp[sel], bound, f"ramp_mismatch:{name}",
                                            f"{note}: image {i} (original {it.ident}) differs from its ramp at the returned grid's world positions"))
         edge = it.ok & ~it.tight
@@ -1183,17 +1283,24 @@ def step(state: State, op, avoid, stats):
                                                      f"target grid) was modified in place by the call; now {call.watch}")
     sel = getattr(call, "sel", None)
     n_items = len(sel) if sel is not None else N_prev
+    old_axes = state.axes
+    if getattr(call, "new_axes", None) is not None:
+        state.axes = call.new_axes
+    new_lin = None if (not state.is_flow or state.axes == "world") else state.axes
     t, grids = structure(state, out, call, n_items)
     if call.shape is not None and [int(v) for v in reversed(t.shape[2:])] != list(call.shape):
         raise Violation(f"documented_size:{name}", f"{call.note}: result size {list(reversed(t.shape[2:]))}, documented {list(call.shape)}")
     models = [model_of(g) for g in grids]
     junk = junk_level(state, t_prev, call, op)
     src = [prev_items[j] for j in sel] if sel is not None else prev_items
+    if state.is_flow and (old_axes != "world" or new_lin is not None):
+        # padded / extrapolated values are re-expressed together with the vectors: scale the junk level accordingly
+        junk *= max([1.0] + [vector_gain(it.model, None if old_axes == "world" else old_axes, m, new_lin) for it, m in zip(src, models)])
     new_items = []
     rels = []
     shared_rel = None
     for i, (it, m) in enumerate(zip(src, models)):
-        ni = Item(it.ident, it.A, it.p, it.b, m, it.lin)
+        ni = Item(it.ident, it.A, it.p, it.b, m, new_lin)
         rel = call.rel
         if rel in ("batch", "channel"):
             ni.ok, ni.tight, ni.loose = it.ok, it.tight, it.loose
@@ -1241,7 +1348,9 @@ def step(state: State, op, avoid, stats):
                                                        f"footprint yields {ni.ok.shape}")
         new_items.append(ni)
     # index-only operations: bit-exact copies at the documented offset
-    if name in INDEX_ONLY:
+    # (vectors of a flow field w.r.t. grid / cube axes are re-expressed w.r.t. the returned grid by crop / pad / ROI ...: they
+    # are held to the ramp oracle in the units of the returned grid instead; narrow / indexing always return the values)
+    if name in INDEX_ONLY and (new_lin is None or name in ("narrow", "getitem")):
         tp = t_prev.detach()
         chan = getattr(call, "chan", None)
         for i, r in enumerate(rels):
@@ -1276,7 +1385,8 @@ def step(state: State, op, avoid, stats):
     if getattr(call, "chan", None) is not None:
         c0 = state.chan[0] if state.chan else 0
         state.chan = (c0 + call.chan[0], call.chan[1])
-    stats["ratio"] = max(stats["ratio"], check_values(state, new_items, t, name + call.kindtag, call.note, stats))
+    stats["ratio"] = max(stats["ratio"], check_values(state, new_items, t, name + call.kindtag, call.note, stats,
+                                                      operand_models=[it.model for it in src] if old_axes == state.axes else None))
     if not any(it.ok.any() for it in new_items):
         return f"{name}:nothing_left_to_compare", state.size() != n_before or n_items != N_prev
     return f"{name}", state.size() != n_before or n_items != N_prev
@@ -1340,7 +1450,16 @@ def run_pyramid(state: State, op, avoid, stats):
     note = f"pyramid({levels}, 0, {end}, {kw})"
     if sp is not None:
         name = "pyramid:spacing"
-    full_call = Call(name, lambda o: o.pyramid(levels, 0, end, **kw), note=note, kindtag=tag)
+    # start / end are also given in their documented other forms: negative = counted from the coarsest level, end omitted = -1
+    idx_form = op.get("index_form", "pos")
+    end_arg = end - levels if idx_form == "neg" else end
+    if idx_form == "default" and end == levels - 1:
+        full_fn = lambda o: o.pyramid(levels, **kw)  # noqa: E731
+        note = f"pyramid({levels}, {kw})"
+    else:
+        full_fn = lambda o: o.pyramid(levels, 0, end_arg, **kw)  # noqa: E731
+        note = f"pyramid({levels}, 0, {end_arg}, {kw})"
+    full_call = Call(name, full_fn, note=note, kindtag=tag)
     pyr = call_deepali(state, full_call)
     if not isinstance(pyr, dict) or sorted(pyr.keys()) != list(range(0, end + 1)):
         raise Violation("pyramid_levels", f"{note}: returned levels {sorted(pyr.keys()) if isinstance(pyr, dict) else type(pyr)}")
@@ -1357,27 +1476,32 @@ def run_pyramid(state: State, op, avoid, stats):
         m_n = [int(v) for v in reversed(t.shape[2:])]
         models = [model_of(g) for g in grids]
         items = []
+        jl = junk
+        if state.is_flow and state.axes != "world":
+            jl = junk * max([1.0] + [vector_gain(it.model, state.axes, m, state.axes) for it, m in zip(state.items, models)])
         for i, (it, m) in enumerate(zip(prev, models)):
             ni = Item(it.ident, it.A, it.p, it.b, m, it.lin)
             if lv == 0 and sp is not None:
-                ni.ok, ni.tight, ni.loose = apply_world(it, m, K * EPS32 * index_cond(it.model), junk)
+                ni.ok, ni.tight, ni.loose = apply_world(it, m, K * EPS32 * index_cond(it.model), jl)
             else:
                 base = it
                 if lv > 0 and rad > 0:
                     pre = [rad if (k in axes and m_n[k] != cur_n[k]) else 0 for k in range(D)]
                     base = Item(it.ident, it.A, it.p, it.b, it.model, it.lin)
-                    base.ok, base.tight, base.loose = apply_sep(it, Rel("sep", axes=[window_axis(cur_n[k], 0, pre[k]) for k in range(D)]), junk)
+                    base.ok, base.tight, base.loose = apply_sep(it, Rel("sep", axes=[window_axis(cur_n[k], 0, pre[k]) for k in range(D)]), jl)
                 r = _interp_rel(cur_n, m_n, acp, max(cur_n + m_n))
-                ni.ok, ni.tight, ni.loose = apply_sep(base, r, junk)
+                ni.ok, ni.tight, ni.loose = apply_sep(base, r, jl)
             items.append(ni)
-        stats["ratio"] = max(stats["ratio"], check_values(state, items, t, name, f"{note} level {lv}", stats))
+        stats["ratio"] = max(stats["ratio"], check_values(state, items, t, name, f"{note} level {lv}", stats,
+                                                          operand_models=[it.model for it in prev]))
         per_level[lv] = (out, items)
         prev = items
         cur_n = m_n
     if start > 0:
-        sub = call_deepali(state, Call(name, lambda o: o.pyramid(levels, start, end, **kw), note=note, kindtag=tag))
+        start_arg = start - levels if idx_form == "neg" else start
+        sub = call_deepali(state, Call(name, lambda o: o.pyramid(levels, start_arg, end_arg, **kw), note=note, kindtag=tag))
         if sorted(sub.keys()) != list(range(start, end + 1)):
-            raise Violation("pyramid_levels", f"pyramid({levels}, {start}, {end}): returned levels {sorted(sub.keys())}")
+            raise Violation("pyramid_levels", f"pyramid({levels}, {start_arg}, {end_arg}): returned levels {sorted(sub.keys())}")
         for lv, o in sub.items():
             a, b = o.tensor(), per_level[lv][0].tensor()
             if a.shape != b.shape or not torch.equal(a, b):
@@ -1411,7 +1535,15 @@ def run_chain(case):
     t0 = state.data()
     stats["ratio"] = check_values(state, state.items, t0, "input", "input", stats)
     labels = [f"kind={case['kind']}", f"D={case['D']}", f"N={len(case['grids'])}", f"ac={case['grids'][0]['ac']}", case["dtype"],
-              f"len={len(case['ops'])}", f"axes={case.get('axes', 'world')}"]
+              f"len={len(case['ops'])}", f"axes={case.get('axes', 'world')}", f"plan={case.get('plan', '-')}"]
+    if state.is_flow:
+        g_ac = bool(case["grids"][0]["ac"])
+        ax = case.get("axes", "world")
+        labels.append(f"flow_axes={ax}:ac={g_ac}:via={case.get('axes_via', 'ctor')}")
+        if ax in ("cube", "cube_corners") and (ax == "cube_corners") != g_ac:
+            labels.append("flow_axes_differ_from_grid_flag")
+    if len({bool(g["ac"]) for g in case["grids"]}) > 1 and not case.get("share_grid"):
+        labels.append("mixed_align_corners_in_batch")
     if state.derived:
         labels.append("input_grid=derived:" + state.derived["how"])
     if case.get("share_grid") and state.is_batch and len(state.items) > 1:
@@ -1479,6 +1611,9 @@ def choice(draw, seq):
     return seq[draw(st.integers(0, 10 ** 6)) % len(seq)]
 
 
+AXES = ("world", "grid", "cube", "cube_corners")
+SIZE_CHANGERS = ("resize", "resample", "downsample", "upsample", "pyramid", "crop", "pad", "center_crop", "center_pad",
+                 "region_of_interest", "avg_pool", "conv", "sample")  # operations that put the data on another grid
 FRACTIONAL_MAKERS = ("downsample", "pyramid", "resample")          # leave a fractional internal grid size behind
 SCALAR_FILL_OPS = ("sample", "pad", "center_pad", "region_of_interest", "crop")  # take a scalar fill / padding constant
 
@@ -1492,6 +1627,8 @@ def op_cases(draw, D, kind, name=None, position=0, force=None):
              "region_of_interest", "narrow", "avg_pool", "conv", "sample", "sample"]
     if batch:
         names.append("getitem")
+    if kind in ("flowfield", "flowfields"):
+        names += ["axes", "axes"]
     if name is None:
         name = choice(draw, names)
     us = lambda: draw(st.lists(unit(), min_size=D, max_size=D))  # noqa: E731
@@ -1511,13 +1648,15 @@ def op_cases(draw, D, kind, name=None, position=0, force=None):
                   form=draw(st.sampled_from(["list", "list", "args", "scalar", "min", "max"])))
     elif name == "downsample":
         op.update(levels=draw(st.sampled_from([1, 1, 2])), dims=dims, dims_as_str=draw(st.booleans()),
-                  sigma=draw(st.sampled_from([0, 0, 0, None, 0.5, 1.0])), min_size=draw(st.sampled_from([0, 0, 2, 3, 4])), ac=draw(opt_bool()))
+                  sigma=draw(st.sampled_from([0, 0, 0, None, 0.5, 1.0])), min_size=draw(st.sampled_from([0, 0, 2, 3, 4])), ac=draw(opt_bool()),
+                  negative=choice(draw, [False, False, False, True]))
     elif name == "upsample":
-        op.update(levels=draw(st.sampled_from([1, 1, 2])), dims=dims, dims_as_str=draw(st.booleans()), ac=draw(opt_bool()))
+        op.update(levels=draw(st.sampled_from([1, 1, 2])), dims=dims, dims_as_str=draw(st.booleans()), ac=draw(opt_bool()),
+                  negative=choice(draw, [False, False, False, True]))
     elif name == "pyramid":
         op.update(levels=draw(st.integers(1, 3)), dims=dims, dims_as_str=draw(st.booleans()), sigma=draw(st.sampled_from([0, 0, None])),
                   min_size=draw(st.sampled_from([0, 0, 2, 3])), ac=draw(opt_bool()), start=draw(unit()), end=draw(unit()), pick=draw(unit()),
-                  spacing=draw(st.one_of(st.none(), st.none(), unit())))
+                  spacing=draw(st.one_of(st.none(), st.none(), unit())), index_form=choice(draw, ["pos", "pos", "neg", "default"]))
     elif name in ("crop", "pad"):
         op.update(form=draw(st.sampled_from(["margin_int", "margin", "margin_args", "num", "num", "num_int"])),
                   v=draw(st.lists(st.integers(-2, 3), min_size=2 * D, max_size=2 * D)),
@@ -1547,6 +1686,8 @@ def op_cases(draw, D, kind, name=None, position=0, force=None):
         op.update(target=draw(target_specs(D, position)),
                   padding=choice(draw, fills[:4] if force == "fill" else [None, None, "border", "zeros", 0, -3.5, 7.0, 4.25]),
                   mode=draw(st.sampled_from([None, "linear"])), as_list=draw(st.booleans()))
+    elif name == "axes":
+        op.update(to=draw(st.sampled_from(AXES)), as_str=draw(st.booleans()))
     elif name == "getitem":
         op.update(how=draw(st.sampled_from(["ellipsis", "slice", "list"])), a=draw(unit()), l=draw(unit()),
                   perm=draw(st.lists(st.integers(0, 2), min_size=1, max_size=3, unique=True)))
@@ -1572,13 +1713,17 @@ def target_specs(draw, D, position=0):
 
 
 @st.composite
-def batch_grids(draw, D, N):
+def batch_grids(draw, D, N, mixed_ac=False):
+    """Per-image grids of one common shape; `mixed_ac`: the images after the first draw their own align_corners flag (the
+    batch default used by operations is the flag of the FIRST grid, ImageBatch.align_corners())."""
     kinds = ("identity", "perm", "rotation", "rotation", "rotation", "reflection")
     g0 = draw(gen.grids(D, min_size=GEN_MIN[D], max_size=GEN_MAX[D], mag=100.0, spacing_lo=0.25, spacing_hi=4.0, kinds=kinds))
     grids = [g0]
     same = draw(st.booleans())
     for _ in range(1, N):
         g = draw(gen.grids(D, min_size=GEN_MIN[D], max_size=GEN_MAX[D], mag=100.0, spacing_lo=0.25, spacing_hi=4.0, ac=g0["ac"], kinds=kinds))
+        if mixed_ac:
+            g["ac"] = draw(st.booleans())
         g["size"] = list(g0["size"])
         if same:
             g["spacing"] = list(g0["spacing"])
@@ -1617,8 +1762,9 @@ def chain_cases(draw):
     D = draw(gen.dims())
     kind = draw(st.sampled_from(["image", "batch", "batch", "batch", "flowfields", "flowfields", "flowfield"]))
     N = draw(st.integers(1, 3)) if kind in ("batch", "flowfields") else 1
-    plan = choice(draw, ["free", "free", "free", "fractional", "reuse"])
-    grids = draw(batch_grids(D, N))
+    plan = choice(draw, ["free", "free", "free", "fractional", "reuse", "repeat"])
+    mixed_ac = N > 1 and choice(draw, [False, True])
+    grids = draw(batch_grids(D, N, mixed_ac=mixed_ac))
     odd = draw(st.lists(st.booleans(), min_size=D, max_size=D))
     if plan == "fractional" and not any(odd):
         odd[draw(st.integers(0, D - 1))] = True
@@ -1638,16 +1784,31 @@ def chain_cases(draw):
         second["src"], second["target"]["of"] = choice(draw, [(None, None), (None, None), (0, 1), (0, 1), (None, 0)])
         ops = [first, second] + [draw(op_cases(D, kind, position=2)) for _ in range(draw(st.integers(0, 1)))]
         derive = None
+    elif plan == "repeat":
+        # the same grid-changing operation applied two or three times in sequence, each time to the previous result
+        nm = choice(draw, SIZE_CHANGERS)
+        ops = [draw(op_cases(D, kind, name=nm, position=0)) for _ in range(choice(draw, [2, 2, 3]))]
+        for o in ops:
+            o["src"] = None
+        derive = None
     else:
         first = draw(op_cases(D, kind, name=choice(draw, SCALAR_FILL_OPS), force="fill"))
         ops = [first] + [draw(op_cases(D, kind, position=k)) for k in range(1, draw(st.integers(2, 3)))]
         ops[1]["src"] = 0
         derive = draw(input_derivations(D))
+    # flow fields: vectors w.r.t. any of the four axes on grids of either flag (the default axes of a grid are only one of the
+    # eight combinations), given to the constructor, left to its default, or obtained by flow.axes() from another representation
+    axes, via, axes_from = "world", "ctor", "world"
+    if kind in ("flowfield", "flowfields"):
+        via = choice(draw, ["ctor", "ctor", "convert", "convert", "default"])
+        axes = ("cube_corners" if grids[0]["ac"] else "cube") if via == "default" else choice(draw, list(AXES) + ["cube", "cube_corners"])
+        axes_from = choice(draw, AXES)
     case = {
         "kind": kind, "D": D, "grids": grids, "C": draw(st.integers(1, 2)),
         "slopes": draw(slope_lists(D, N)), "b0": draw(st.lists(gen.qfloat(-5.0, 5.0, 0.5), min_size=N, max_size=N)),
         "dtype": draw(st.sampled_from(["float32", "float32", "float64"])),
         "ops": ops, "plan": plan, "derive": derive, "share_grid": share,
+        "axes": axes, "axes_via": via, "axes_from": axes_from,
         "avoid": [k for k in ("K3", "K4") if KNOWN.active(k)],
     }
     return case
@@ -1661,7 +1822,9 @@ def flow_axes_cases(draw):
     op = {"op": "sample", "target": draw(target_specs(D)), "padding": draw(st.sampled_from([None, "border", "zeros"])),
           "mode": draw(st.sampled_from([None, "linear"])), "as_list": draw(st.booleans())}
     return {
-        "kind": kind, "D": D, "grids": draw(batch_grids(D, N)), "C": D, "axes": draw(st.sampled_from(["grid", "cube", "cube_corners", "world"])),
+        "kind": kind, "D": D, "grids": draw(batch_grids(D, N, mixed_ac=N > 1 and choice(draw, [False, False, True]))), "C": D,
+        "axes": draw(st.sampled_from(["grid", "cube", "cube_corners", "world"])),
+        "axes_via": choice(draw, ["ctor", "ctor", "convert"]), "axes_from": choice(draw, AXES),
         "slopes": draw(slope_lists(D, N)), "b0": draw(st.lists(gen.qfloat(-5.0, 5.0, 0.5), min_size=N, max_size=N)),
         "dtype": draw(st.sampled_from(["float32", "float64"])), "ops": [op], "avoid": [],
         "derive": draw(input_derivations(D)), "share_grid": choice(draw, [None, None, "list"]) if N > 1 else None,
@@ -1677,14 +1840,18 @@ def run_flow_axes(case):
 
 FACETS = [
     Facet("ramp_chain", run_chain, strategy=chain_cases,
-          rule="Image / ImageBatch(N<=3, distinct grids or one shared Grid object) / FlowField / FlowFields(WORLD) with per-image linear "
-               "world ramps; program of 1-4 operations over a pool of live objects (plans: free 3/5, fractional-size-then-sample 1/5, "
-               "scalar-fill-then-reuse 1/5; operand = latest or earlier object; odd sizes 1/2; derived fractional input grid 1/3) with "
+          rule="Image / ImageBatch(N<=3, distinct grids, common or per-image align_corners flags, or one shared Grid object) / FlowField / "
+               "FlowFields (axes world / grid / cube / cube_corners drawn independently of the grid flag, cube axes twice as likely; via "
+               "constructor 2/5, flow.axes() from another representation 2/5, constructor default 1/5) with per-image linear "
+               "world ramps; program of 1-4 operations over a pool of live objects (plans: free 3/6, fractional-size-then-sample 1/6, "
+               "scalar-fill-then-reuse 1/6, same grid-changing operation 2-3 times in sequence 1/6; operand = latest or earlier object; "
+               "odd sizes 1/2; derived fractional input grid 1/3) with "
                "relative arguments resolved against the current size; non-trivial = rotated anisotropic grid AND "
                "(N >= 2 or >= 2 applied operations) AND an operation changed the size AND >= 1 sample compared",
           quick=2000, thorough=30000, shards=16, quick_shards=8),
     Facet("flow_sample_axes", run_flow_axes, strategy=flow_axes_cases,
-          rule="FlowField(s) whose WORLD vectors are linear in world position, stored w.r.t. grid/cube/cube_corners/world axes, sampled on "
+          rule="FlowField(s) whose WORLD vectors are linear in world position, stored w.r.t. grid/cube/cube_corners/world axes (constructor 2/3 or flow.axes() from another "
+               "representation 1/3; per-image align_corners flags in 1/3 of the batches), sampled on "
                "one target grid per image (input and target grids also derived with a fractional internal size); expected = "
                "(world -> axes of the TARGET grid) applied to the ramp; non-trivial = rotated anisotropic grid, non-world axes, "
                ">= 1 sample compared",
